@@ -5,6 +5,7 @@ import (
 	"strings"
 	"sync"
 	"sync/atomic"
+	"time"
 
 	stackage "github.com/JesseCoretta/go-stackage"
 	"verifharness/core"
@@ -276,7 +277,11 @@ func init() {
 // the leaf it put in. The fixed part of the stack (a leaf, a parenthetical wrapper, a NOT) survives in order.
 func c20Concurrent(c *core.Ctx) {
 	r := c.Rng
-	stackage.VerifSetHook(nil) // several goroutines: the single-goroutine lock watcher does not apply here
+	// several goroutines: the single-goroutine lock watcher does not apply here; a wait-for graph over the same lock
+	// events decides "deadlock" instead (a goroutine about to wait at the end of a chain that leads back to itself)
+	wfg := NewWaitGraph()
+	stackage.VerifSetHook(wfg.Hook)
+	defer stackage.VerifSetHook(nil)
 	root := stackage.And().SetMutex()
 	keepParen := stackage.Or().SetParen(true).Push(stackage.And().Push("inside-paren"))
 	keepNot := stackage.Not().Push(stackage.Or().Push("inside-not"))
@@ -285,11 +290,40 @@ func c20Concurrent(c *core.Ctx) {
 	if c.Tier == "thorough" {
 		rounds = 20000
 	}
-	mode := r.Intn(6)
+	mode := r.Intn(7)
+	child := stackage.Or().SetMutex().Push("child-leaf")
+	if mode == 6 {
+		root.Push(child) // a mutex-enabled nested stack whose content is transferred into its own parent
+	}
 	var bad atomic.Value
 	var wg sync.WaitGroup
 	done := make(chan struct{})
-	wg.Add(2)
+	wg.Add(3)
+	go func() {
+		// a third goroutine reveals trees of its own all along: nothing is shared, so nothing may go wrong
+		defer wg.Done()
+		defer func() {
+			if p := recover(); p != nil {
+				bad.Store(fmt.Sprintf("Reveal of a private tree panicked while other goroutines revealed theirs: %v", p))
+			}
+		}()
+		for i := 0; ; i++ {
+			select {
+			case <-done:
+				return
+			default:
+			}
+			leaf := fmt.Sprintf("private-%d", i)
+			own := stackage.And().SetMutex().Push(stackage.Or().SetMutex().Push(stackage.And().Push(stackage.Or().Push(stackage.And().SetMutex().Push(leaf, "second")))))
+			own.Reveal()
+			var seq []string
+			describeLive(own, 0).leafSeq(&seq)
+			if len(seq) != 2 || seq[0] != "L:"+Show(leaf) {
+				bad.Store(fmt.Sprintf("a private tree around %q reads %v after its own Reveal", leaf, seq))
+				return
+			}
+		}
+	}()
 	go func() {
 		defer wg.Done()
 		defer close(done)
@@ -300,6 +334,15 @@ func c20Concurrent(c *core.Ctx) {
 		}()
 		for i := 0; i < rounds; i++ {
 			leaf := fmt.Sprintf("leaf-%d", i)
+			if mode == 6 {
+				child.Transfer(root)
+				got, ok := root.Pop()
+				if !ok || got != "child-leaf" {
+					bad.Store(fmt.Sprintf("round %d: after child.Transfer(parent) the parent's Pop returned (%s,%v)", i, Show(got), ok))
+					return
+				}
+				continue
+			}
 			env := stackage.Or().Push(stackage.And().Push(leaf))
 			if mode == 3 {
 				root.Insert(env, 0)
@@ -362,15 +405,38 @@ func c20Concurrent(c *core.Ctx) {
 			reveals++
 		}
 	}()
-	wg.Wait()
-	desc := map[string]any{"mode": []string{"push+pop", "push+remove", "push+pop+reset", "insert-front+remove-front", "push+reverse+reverse+pop", "push+swap+swap+pop"}[mode], "rounds": rounds}
+	finished := make(chan struct{})
+	go func() { wg.Wait(); close(finished) }()
+	desc := map[string]any{"mode": []string{"push+pop", "push+remove", "push+pop+reset", "insert-front+remove-front", "push+reverse+reverse+pop", "push+swap+swap+pop", "child.Transfer(parent)+pop"}[mode], "rounds": rounds}
+wait:
+	for {
+		select {
+		case <-finished:
+			break wait
+		default:
+		}
+		wfg.mu.Lock()
+		found := wfg.Found
+		wfg.mu.Unlock()
+		if found != "" {
+			// (decided by the wait-for graph; the goroutines involved are left where they are)
+			c.Violatef("concurrent:deadlock", desc, "deadlock on mutex-enabled stacks: %s", found)
+			return
+		}
+		time.Sleep(200 * time.Microsecond)
+		core.Beat()
+	}
 	if b, _ := bad.Load().(string); b != "" {
 		c.Violatef("concurrent", desc, "%s", b)
 		return
 	}
 	var seq []string
 	describeLive(root, 0).leafSeq(&seq)
-	if strings.Join(seq, "|") != "L:"+Show("fixed-leaf")+"|L:"+Show("inside-paren")+"|L:"+Show("inside-not") {
+	wantSeq := "L:" + Show("fixed-leaf") + "|L:" + Show("inside-paren") + "|L:" + Show("inside-not")
+	if mode == 6 {
+		wantSeq += "|L:" + Show("child-leaf")
+	}
+	if strings.Join(seq, "|") != wantSeq {
 		c.Violatef("concurrent:content", desc, "after the run the fixed part of the stack reads %v", seq)
 		return
 	}
